@@ -37,3 +37,29 @@ func atoiPrefix(s string, n int) int {
 	}
 	return atoiPrefix(s, n-1)*10 + int(s[n-1]-'0')
 }
+
+// Value is the value of the decimal numeral s (for strings whose length is known).
+func Value(s string) int {
+	v := 0
+	for i := 0; i < len(s); i++ {
+		v = v*10 + int(s[i]-'0')
+	}
+	return v
+}
+
+// FormatDec is the decimal numeral of n >= 0, zero-padded on the left to at least w digits
+// (fmt.Sprintf("%0*d", w, n)).  To the verifier it is an uninterpreted string characterised by:
+// for 0 <= n < 10^w it has exactly w decimal digits whose value is n.
+//
+//vc:string-uf
+func FormatDec(n int, w int) string {
+	var d []byte
+	for n > 0 {
+		d = append([]byte{byte('0' + n%10)}, d...)
+		n /= 10
+	}
+	for len(d) < w || len(d) == 0 {
+		d = append([]byte{'0'}, d...)
+	}
+	return string(d)
+}
